@@ -24,14 +24,16 @@ VARIABLES l,
           full,       \* last logged full state (before the current event)
           lastFrame,  \* [ms, s] of the last frame through the frame path (-1: none)
           lastHello,  \* virtual time of the last periodic Hello on this interface (-1: none)
-          lastNi      \* last (r, Ni) pair of a band event, for monotonicity
-vars == << l, tbl, mT, sT, full, lastFrame, lastHello, lastNi >>
+          lastNi,     \* last (r, Ni) pair of a band event, for monotonicity
+          lastIn      \* history: second of the last input to << mapping, session >> automaton (the monitor's own clock,
+                      \* not the automaton's last_ts field: "left without input for longer than its timeout")
+vars == << l, tbl, mT, sT, full, lastFrame, lastHello, lastNi, lastIn >>
 
 NoFull == [ms |-> 0, live |-> {}, es |-> 0, hto |-> 0 - 1, bto |-> 0 - 1, lasttx |-> 0]
 
 TraceInit ==
   /\ l = 1 /\ tbl = {} /\ mT = << 0, 0, 0 >> /\ sT = << 0, 0, 0, 0 >>
-  /\ full = NoFull /\ lastFrame = << 0 - 1, 0 - 1 >> /\ lastHello = 0 - 1 /\ lastNi = << >>
+  /\ full = NoFull /\ lastFrame = << 0 - 1, 0 - 1 >> /\ lastHello = 0 - 1 /\ lastNi = << >> /\ lastIn = << 0, 0 >>
 
 Ent(x) == [key |-> x[1], gen |-> x[2], complete |-> x[3] = 1, last |-> x[4]]
 LiveSet(ev) == {Ent(ev.live[i]) : i \in 1..Len(ev.live)}
@@ -82,7 +84,7 @@ HellosOK(hs, i, last) ==
 LastHelloAfter(hs, last) == IF Len(hs) = 0 THEN last ELSE hs[Len(hs)].t
 
 Skip == /\ Log[l].e \in {"mark", "end"} /\ l' = l + 1
-        /\ UNCHANGED << tbl, mT, sT, full, lastFrame, lastHello, lastNi >>
+        /\ UNCHANGED << tbl, mT, sT, full, lastFrame, lastHello, lastNi, lastIn >>
 
 TNew ==
   LET ev == Log[l] IN
@@ -91,25 +93,33 @@ TNew ==
   /\ Chk("C16") => TableConsistent(ev)
   /\ tbl' = LiveSet(ev) /\ mT' = ev.mT /\ sT' = ev.sT /\ full' = FullOf(ev)
   /\ lastFrame' = << 0 - 1, 0 - 1 >> /\ lastHello' = 0 - 1 /\ lastNi' = << >>
+  /\ lastIn' = << ev.now \div 1000, ev.now \div 1000 >>
   /\ l' = l + 1
 
+(* elapsed time: when the driver forced the public state it also chose last_ts; otherwise the monitor's *)
+(* own record of the last input counts (and the automaton's last_ts must agree with it)              *)
 TMStep ==
-  LET ev == Log[l] IN
-  /\ ev.e = "mstep"
-  /\ Chk("C14") => ev.s1 \in MappingStep(ev.s0, ev.in, ev.nows - ev.l0, mT)
-  /\ (Primary = "C14" => TLCSet(2, TLCGet(2) \cup {<< "step", ev.s0, ev.in, ev.nows - ev.l0 >>}))
-  /\ l' = l + 1 /\ UNCHANGED << tbl, mT, sT, full, lastFrame, lastHello, lastNi >>
+  LET ev == Log[l]
+      since == IF ev.forced = 1 THEN ev.l0 ELSE lastIn[1]
+  IN /\ ev.e = "mstep"
+     /\ Chk("C14") => ev.s1 \in MappingStep(ev.s0, ev.in, ev.nows - since, mT)
+     /\ (Primary = "C14" => TLCSet(2, TLCGet(2) \cup {<< "step", ev.s0, ev.in, ev.nows - since >>}))
+     /\ lastIn' = << ev.nows, lastIn[2] >>
+     /\ full' = [full EXCEPT !.ms = ev.s1]
+     /\ l' = l + 1 /\ UNCHANGED << tbl, mT, sT, lastFrame, lastHello, lastNi >>
 
 TSStep ==
-  LET ev == Log[l] IN
-  /\ ev.e = "sstep"
-  /\ Chk("C15") => (ev.in \in 0..7 => ev.s1 \in SessionStep(ev.s0, ev.in, ev.nows - ev.l0, sT))
-  /\ (Primary = "C15" => TLCSet(2, TLCGet(2) \cup {<< ev.s0, ev.in, ev.nows - ev.l0 >>}))
-  /\ l' = l + 1 /\ UNCHANGED << tbl, mT, sT, full, lastFrame, lastHello, lastNi >>
+  LET ev == Log[l]
+      since == IF ev.forced = 1 THEN ev.l0 ELSE lastIn[2]
+  IN /\ ev.e = "sstep"
+     /\ Chk("C15") => (ev.in \in 0..7 => ev.s1 \in SessionStep(ev.s0, ev.in, ev.nows - since, sT))
+     /\ (Primary = "C15" => TLCSet(2, TLCGet(2) \cup {<< ev.s0, ev.in, ev.nows - since >>}))
+     /\ lastIn' = << lastIn[1], ev.nows >>
+     /\ l' = l + 1 /\ UNCHANGED << tbl, mT, sT, full, lastFrame, lastHello, lastNi >>
 
 TEStep ==
   /\ Log[l].e = "estep"
-  /\ l' = l + 1 /\ UNCHANGED << tbl, mT, sT, full, lastFrame, lastHello, lastNi >>
+  /\ l' = l + 1 /\ UNCHANGED << tbl, mT, sT, full, lastFrame, lastHello, lastNi, lastIn >>
 
 (* C16: strict comparison with the dictionary model *)
 TTop ==
@@ -132,7 +142,7 @@ TTop ==
      /\ (Primary = "C16" => TLCSet(2, TLCGet(2) \cup {<< ev.op, Cardinality(tbl), hit # {} >>}))
      /\ tbl' = (IF Chk("C16") THEN nt ELSE LiveSet(ev))
      /\ full' = [full EXCEPT !.live = LiveSet(ev)]
-     /\ l' = l + 1 /\ UNCHANGED << mT, sT, lastFrame, lastHello, lastNi >>
+     /\ l' = l + 1 /\ UNCHANGED << mT, sT, lastFrame, lastHello, lastNi, lastIn >>
 
 (* the periodic tick (C14 inactivity rule, C12 pacing, C16 bookkeeping) *)
 TTick ==
@@ -151,18 +161,24 @@ TTick ==
      /\ (Primary = "C12" /\ Len(ev.hellos) > 0 => TLCSet(2, TLCGet(2) \cup {l}))
      /\ lastHello' = LastHelloAfter(ev.hellos, lastHello)
      /\ full' = FullOf(ev) /\ tbl' = LiveSet(ev)
+     /\ lastIn' = (IF ev.ms # full.ms THEN << nows, lastIn[2] >> ELSE lastIn)
      /\ l' = l + 1 /\ UNCHANGED << mT, sT, lastFrame, lastNi >>
 
 (* a frame through the Darwin frame path (classifier, table update, automata, parseFrame, tick) *)
 TGlue ==
   LET ev == Log[l] IN
   /\ ev.e = "glue"
+  \* the frame path feeds the opcode to the mapping engine; leaving an active state empties the table
+  /\ Chk("C14") => /\ ev.ms \in MappingStep(full.ms, ev.op, ev.now \div 1000 - lastIn[1], mT)
+                   /\ (full.ms # 0 /\ ev.ms = 0) => ev.live = << >>
+  /\ (Primary = "C14" => TLCSet(2, TLCGet(2) \cup {<< "glue", full.ms, ev.op, ev.now \div 1000 - lastIn[1] >>}))
   /\ Chk("C16") => TableConsistent(ev)
   /\ Chk("C12") => HellosOK(ev.hellos, 1, lastHello)
   /\ (Primary = "C12" /\ Len(ev.hellos) > 0 => TLCSet(2, TLCGet(2) \cup {l}))
   /\ lastHello' = LastHelloAfter(ev.hellos, lastHello)
   /\ lastFrame' = << ev.now, ev.now \div 1000 >>
   /\ full' = FullOf(ev) /\ tbl' = LiveSet(ev)
+  /\ lastIn' = << ev.now \div 1000, ev.now \div 1000 >>
   /\ l' = l + 1 /\ UNCHANGED << mT, sT, lastNi >>
 
 THeard ==
@@ -170,14 +186,14 @@ THeard ==
   /\ ev.e = "heard"
   /\ Chk("C12") => ev.hellos = << >>
   /\ full' = FullOf(ev) /\ tbl' = LiveSet(ev)
-  /\ l' = l + 1 /\ UNCHANGED << mT, sT, lastFrame, lastHello, lastNi >>
+  /\ l' = l + 1 /\ UNCHANGED << mT, sT, lastFrame, lastHello, lastNi, lastIn >>
 
 TClassify ==
   LET ev == Log[l] IN
   /\ ev.e = "classify"
   /\ Chk("C11") => ev.ev \in Classify(ev.b, ev.fill, ev.len, SeqTable(ev), ev.own)
   /\ (Primary = "C11" => TLCSet(2, TLCGet(2) \cup {<< At(ev.b, ev.fill, 18), ev.ev, W16(ev.b, ev.fill, 35) >>}))
-  /\ l' = l + 1 /\ UNCHANGED << tbl, mT, sT, full, lastFrame, lastHello, lastNi >>
+  /\ l' = l + 1 /\ UNCHANGED << tbl, mT, sT, full, lastFrame, lastHello, lastNi, lastIn >>
 
 (* C13: one end of block *)
 TBand ==
@@ -195,7 +211,7 @@ TBand ==
                       /\ mono          \* same prior count: hearing more never shortens the next interval
      /\ (Primary = "C13" => TLCSet(2, TLCGet(2) \cup {<< ev.prev, ev.r, ev.begun >>}))
      /\ lastNi' = << ev.prev, ev.begun, ev.r, ev.interval >>
-     /\ l' = l + 1 /\ UNCHANGED << tbl, mT, sT, full, lastFrame, lastHello >>
+     /\ l' = l + 1 /\ UNCHANGED << tbl, mT, sT, full, lastFrame, lastHello, lastIn >>
 
 (* C18: constructors with the k-th allocation failing *)
 TCtor ==
@@ -204,7 +220,7 @@ TCtor ==
   /\ Chk("C18") => /\ ev.null = 1 \/ ev.usable = 1       \* failure reported, or a usable object
                    /\ ev.null = 1 => ev.live = 0          \* nothing leaked on the failure path
   /\ (Primary = "C18" => TLCSet(2, TLCGet(2) \cup {<< ev.which, ev.k, ev.null >>}))
-  /\ l' = l + 1 /\ UNCHANGED << tbl, mT, sT, full, lastFrame, lastHello, lastNi >>
+  /\ l' = l + 1 /\ UNCHANGED << tbl, mT, sT, full, lastFrame, lastHello, lastNi, lastIn >>
 
 TraceNext == l <= Len(Log) /\ (Skip \/ TNew \/ TMStep \/ TSStep \/ TEStep \/ TTop \/ TTick \/ TGlue \/ THeard \/ TClassify \/ TBand \/ TCtor)
 TraceSpec == TraceInit /\ [][TraceNext]_vars
